@@ -63,6 +63,21 @@ fn many_call_cases() -> Vec<EvalCase> {
                 EvalCase { expr: Expr::Vec(items), facts: Value::None, fns, symbols: BTreeMap::new() }
             })
         })
+        .chain((0..6).map(|k| {
+            // 80 functions registered, called in descending order of registration, a late one alone, or interleaved
+            let names: Vec<String> = (0..80).map(|i| format!("fn{i:02}")).collect();
+            let mut fns = BTreeMap::new();
+            for (i, n) in names.iter().enumerate() {
+                fns.insert(n.clone(), FnSpec { cacheable: k % 2 == 0 || i % 3 != 0, fail_on: vec![], fail_first: 0, uncacheable_after: 0 });
+            }
+            let call = |i: usize| Expr::func(names[i].clone(), Expr::value(i as i128));
+            let items: Vec<Expr> = match k / 2 {
+                0 => (0..80).rev().map(call).collect(),
+                1 => vec![call(79), call(40), call(33), call(0)],
+                _ => (0..40).flat_map(|i| [call(79 - i), call(i)]).collect(),
+            };
+            EvalCase { expr: Expr::Vec(items), facts: Value::None, fns, symbols: BTreeMap::new() }
+        }))
         .collect()
 }
 
